@@ -118,7 +118,51 @@ def small_scope(ctx, max_adapter, max_read, cap=None):
     correspond(ctx, "matchto", cases)
 
 
+def cli_cases(ctx, n):
+    """the first clause through the command line, with several adapter specifications of which an earlier one carries its own search parameters
+    (a `file:` specification too): an error-free partial copy of a *later* regular 3' adapter at the end of the read, at least as long as the
+    global minimum overlap, must be removed - what an earlier specification asks for itself does not concern the others"""
+    import clirun
+    import pipe
+    rng = ctx.rng
+    for _ in range(n):
+        ad = pipe.rs(rng, rng.randint(12, 18))
+        other = pipe.rs(rng, rng.randint(10, 14))
+        O = rng.choice([3, 3, 4, 5])
+        first = rng.choice(["file", "file", "named"])
+        strict = rng.choice([";min_overlap=10", ";o=11;e=0", ";e=0;min_overlap=9"])
+        inputs = {}
+        if first == "file":
+            inputs["p.fa"] = f">p1\n{other}\n>p2\n{pipe.rs(rng, 11)}\n"
+            spec1 = "file:{in:p.fa}" + strict
+        else:
+            spec1 = "first=" + other + strict
+        reads = []
+        for i in range(10):
+            body = pipe.rs(rng, rng.randint(15, 30), "AC" if "G" in ad[:3] or "T" in ad[:3] else "GT")
+            k = rng.randint(O, 9)
+            reads.append((f"r{i}", body + ad[:k], len(body), k))
+        inputs["in.fastq"] = clirun.fastq([(n_, s_, "I" * len(s_)) for n_, s_, _, _ in reads])
+        argv = ["-O", str(O), "-a", spec1, "-a", "second=" + ad, "-o", "{out:out.fastq}", "{in:in.fastq}"]
+        res = clirun.run_cli(argv, inputs, want_json=False)
+        ctx.evaluations += 1
+        ctx.count("cli-several-specifications")
+        shown = dict(argv=[t.replace("{in:p.fa}", "p.fa") for t in argv], adapter_file=inputs.get("p.fa"), reads=[(n_, s_) for n_, s_, _, _ in reads])
+        if res.status != 0:
+            ctx.failures.append(Failure("C02/cli-run-failed", "a valid command line with several adapter specifications fails", shown, res.stderr[-300:], 0))
+            continue
+        out = {a: b for a, b, _ in clirun.parse_fastx(clirun.text_of(res.files.get("out.fastq", b"")))}
+        for n_, s_, keep, k in reads:
+            if len(out.get(n_, s_)) > keep:
+                ctx.failures.append(Failure("C02/occurrence-missed", f"an error-free copy of the first {k} bases of the regular 3' adapter at the end of the read (minimum overlap "
+                                            f"{O}) is not removed", shown, dict(read=n_, output=out.get(n_)), dict(keep_at_most=keep)))
+                break
+        else:
+            ctx.nontriv(("cli-specs", tuple(shown["argv"])))
+
+
 def run(ctx):
+    cli_cases(ctx, ctx.scale(12, 150))
     ctx.rule = ("eight adapter classes, adapters up to 8 (IUPAC), reads up to 22 with embedded exact/sloppy copies (single and double), all admissible occurrences "
                 "enumerated by brute force; non-trivial = distinct case with an admissible occurrence that has >= 1 error or is a partial match at the read end")
     random_cases(ctx, ctx.scale(9000, 200000))
